@@ -271,7 +271,11 @@ def set_default_doc(param, emit_default_doc=True):
                     if _param["doc"][-1] in frozenset((".", ","))
                     else "{doc}.".format(doc=_param["doc"])
                 ),
-                default=quote(_param["default"])
+                default=(
+                    '""'  # `quote` leaves an empty string empty: nothing would follow "Defaults to"
+                    if _param["default"] == ""
+                    else quote(_param["default"])
+                )
                 if needs_quoting(_param.get("typ"))
                 else _param["default"],
             )
